@@ -1,63 +1,117 @@
 /-
 C13 — witnesses.
 
-(1) /repo as it is (`Variant.current`) violates `failure_never_leaves_output`: relative output name × pack
-    directory.  Replayed on the real tool on every run of tools/checks/c13.py (cases `gen-rel*`); listed in
-    known_findings.d/C13.json until fixes/C13-relative-output-with-packdir.patch is committed.
+(0) /repo as it is (`Variant.current`) violates "a run that exits with status 0 has produced exactly the output of a
+    fault-free run" / "exit with a non-zero status … if any system call on the output fails": rdsquashfs -l / -s /
+    -d / -x ignore write errors on standard output.  Replayed on the real tool on every run of tools/checks/c13.py
+    (fault class `stdout`: /dev/full, closed descriptor, EPIPE); listed in known_findings.d/C13.json until
+    fixes/C13-check-stdout-errors.patch is committed.
+(1) Regression: the source before b5ce20d (`Variant.beforeRealpath`) violated `failure_never_leaves_output`:
+    relative output name × pack directory.  Repaired in /repo; a revert is reported by the check as a VIOLATION
+    (cases `gen-rel*`: the oracle sees the file, and the call log no longer contains `realpath`).
 (2) Regression witnesses: the source as first pinned (`Variant.snapshot`) violated three more clauses; the
-    repairs are part of /repo now, and the check reports a revert as a VIOLATION (the real runs then match
-    neither `current` nor `fixed`).
+    repairs are part of /repo now, and the check reports a revert as a VIOLATION.
 -/
-import Sqfs.Model.FailStop
+import Sqfs.Proofs.FailStop
 import Sqfs.Model.FailStopBlockProc
 namespace Sqfs.Witness.C13
 open Sqfs.FailStop
 
-/-! ### (1) the defect of the current source -/
+/-! ### (0) the defect of the current source: write errors on standard output are ignored -/
+
+/-- `rdsquashfs -d image` -/
+def descCfg : RCfg := { sqfs2tar := false, op := .describe }
+
+/-- /repo as it is: `main` makes 12 fallible calls, none of them looks at `stdout` -/
+example : (readerSites .current descCfg).length = 12 ∧ Site.rStdoutFlush ∉ readerSites .current descCfg := by decide
+
+/-- **`rdsquashfs -d image > /dev/full` exits 0.**  Every call of `main` succeeds (`describe_tree` only fills the
+    stdio buffer), `status = EXIT_SUCCESS`; the exit-time flush of libc (script position 12, behind the last site)
+    fails and nobody is left to notice: exit status 0, no failure reported, the listing lost. -/
+theorem stdout_error_unreported :
+    (runReader .current descCfg (single 12)).status = 0 ∧
+    (runReader .current descCfg (single 12)).trace.failed = none ∧
+    (runReader .current descCfg (single 12)).trace.ran = readerSites .current descCfg ∧
+    (runReader .current descCfg (single 12)).stdoutLost = true := by
+  decide
+
+/-- …the same for -l, -s and -x; `-c` (and sqfs2tar) write through `write(2)` and are not affected. -/
+theorem stdout_error_unreported_all :
+    (runReader .current { descCfg with op := .ls } (single 11)).stdoutLost = true ∧
+    (runReader .current { descCfg with op := .stat } (single 12)).stdoutLost = true ∧
+    (runReader .current { descCfg with op := .rdattr } (single 12)).stdoutLost = true ∧
+    (runReader .current { descCfg with op := .cat, nsplice := 2 } (single 15)).stdoutLost = false ∧
+    (runReader .current { sqfs2tar := true, nentries := 2 } (single 9)).stdoutLost = false := by
+  decide
+
+/-- The clause `reader_exit0_results_delivered` is false for /repo as it is. -/
+theorem not_reader_exit0_results_delivered_current :
+    ¬ ∀ (c : RCfg) (fs : List Bool), (runReader .current c fs).status = 0 → (runReader .current c fs).stdoutLost = false := by
+  intro h
+  have := h descCfg (single 12) (by decide)
+  revert this
+  decide
+
+/-- …and so is the specification: the oracle's predicate fails on that model run ("exit0-different-output"). -/
+theorem current_reader_violates_spec :
+    Spec.failStopOk (observedReader .current descCfg (single 12)) = false ∧
+    Spec.verdict (observedReader .current descCfg (single 12)) = "exit0-different-output" := by
+  decide
+
+/-- With fixes/C13-check-stdout-errors.patch the same fault (now at a site of `main`, position 12) is reported:
+    exit 1, site `rStdoutFlush`, nothing lost silently. -/
+theorem stdout_error_reported_when_fixed :
+    (readerSites .fixed descCfg)[12]? = some .rStdoutFlush ∧
+    (runReader .fixed descCfg (single 12)).status = 1 ∧
+    (runReader .fixed descCfg (single 12)).trace.failed = some .rStdoutFlush ∧
+    (runReader .fixed descCfg (single 12)).stdoutLost = false := by
+  decide
+
+/-! ### (1) regression: relative output name × pack directory, before b5ce20d -/
 
 /-- `gensquashfs -F packfile -D in rel.sqfs`, one file to pack -/
 def relCfg : Cfg := { tool := .gensquashfs, packFile := true, packDir := true, relOut := true, nfiles := 1 }
 
 /-- position of `pack_file` for the first file: behind the `chdir` -/
-example : sitePos .current relCfg (.packFile 0) = some 22 ∧ sitePos .current relCfg .chdirPack = some 21 := by decide
+example : sitePos .beforeRealpath relCfg (.packFile 0) = some 22 ∧ sitePos .beforeRealpath relCfg .chdirPack = some 21 := by decide
 
-/-- **The partial output file stays behind.**  `pack_file` fails (the pack file names an input that does not
+/-- **The partial output file stayed behind.**  `pack_file` fails (the pack file names an input that does not
     exist, a read error, an allocation failure …): `main` does `goto out`, `sqfs_writer_cleanup(&sqfs,
     EXIT_FAILURE)` is reached and calls `unlink("rel.sqfs")` — from inside the pack directory, where the name
     does not designate the output file.  Exit status 1, output present. -/
 theorem relative_output_left_behind :
-    (run .current relCfg (single 22)).status = 1 ∧
-    (run .current relCfg (single 22)).cleanupReached = true ∧
-    (run .current relCfg (single 22)).trace.cwd = .pack ∧
-    (run .current relCfg (single 22)).unlinkHit = some false ∧
-    (run .current relCfg (single 22)).out = .present := by
+    (run .beforeRealpath relCfg (single 22)).status = 1 ∧
+    (run .beforeRealpath relCfg (single 22)).cleanupReached = true ∧
+    (run .beforeRealpath relCfg (single 22)).trace.cwd = .pack ∧
+    (run .beforeRealpath relCfg (single 22)).unlinkHit = some false ∧
+    (run .beforeRealpath relCfg (single 22)).out = .present := by
   decide
 
-/-- …and so does every later failure: the rest of `pack_files` and all of `sqfs_writer_finish`
-    (positions 22..29 of the program); a failing `chdir` itself (21) and everything before it are harmless. -/
+/-- …and so did every later failure: the rest of `pack_files` and all of `sqfs_writer_finish`
+    (positions 22..29 of the program); a failing `chdir` itself (21) and everything before it were harmless. -/
 theorem relative_output_left_behind_all :
-    ∀ k : Fin 30, (22 ≤ k.val → (run .current relCfg (single k.val)).out = .present) ∧
-                  (k.val ≤ 21 → (run .current relCfg (single k.val)).out ≠ .present) := by
+    ∀ k : Fin 30, (22 ≤ k.val → (run .beforeRealpath relCfg (single k.val)).out = .present) ∧
+                  (k.val ≤ 21 → (run .beforeRealpath relCfg (single k.val)).out ≠ .present) := by
   decide
 
-/-- The clause `failure_never_leaves_output` is false for /repo as it is. -/
-theorem not_failure_never_leaves_output_current :
-    ¬ ∀ (c : Cfg) (fs : List Bool), (run .current c fs).status ≠ 0 → (run .current c fs).out ≠ .present := by
+/-- The clause `failure_never_leaves_output` was false before b5ce20d. -/
+theorem not_failure_never_leaves_output_beforeRealpath :
+    ¬ ∀ (c : Cfg) (fs : List Bool), (run .beforeRealpath c fs).status ≠ 0 → (run .beforeRealpath c fs).out ≠ .present := by
   intro h
   exact h relCfg (single 22) (by decide) (by decide)
 
-/-- With fixes/C13-relative-output-with-packdir.patch the same failure (one position later: `realpath` is a new
-    site) removes the file; a failing `realpath` itself happens before the `chdir` and is harmless too. -/
-theorem relative_output_removed_when_fixed :
-    sitePos .fixed relCfg (.packFile 0) = some 23 ∧
-    (run .fixed relCfg (single 23)).status = 1 ∧ (run .fixed relCfg (single 23)).trace.cwd = .pack ∧
-    (run .fixed relCfg (single 23)).unlinkHit = some true ∧ (run .fixed relCfg (single 23)).out = .unlinked ∧
-    sitePos .fixed relCfg .realpathOut = some 18 ∧ (run .fixed relCfg (single 18)).out = .unlinked := by
+/-- /repo as it is: the same failure (one position later: `realpath` is a new site) removes the file; a failing
+    `realpath` itself happens before the `chdir` and is harmless too. -/
+theorem relative_output_removed_now :
+    sitePos .current relCfg (.packFile 0) = some 23 ∧
+    (run .current relCfg (single 23)).status = 1 ∧ (run .current relCfg (single 23)).trace.cwd = .pack ∧
+    (run .current relCfg (single 23)).unlinkHit = some true ∧ (run .current relCfg (single 23)).out = .unlinked ∧
+    sitePos .current relCfg .realpathOut = some 18 ∧ (run .current relCfg (single 18)).out = .unlinked := by
   decide
 
-/-- `-D .`: the pack directory is the directory the process is in anyway — nothing is left behind. -/
+/-- `-D .`: the pack directory is the directory the process is in anyway — nothing was left behind. -/
 theorem relative_output_packdir_is_cwd :
-    (run .current { relCfg with packDirIsCwd := true } (single 22)).out = .unlinked := by
+    (run .beforeRealpath { relCfg with packDirIsCwd := true } (single 22)).out = .unlinked := by
   decide
 
 /-! ### (2) regression witnesses against the first pinned source -/
